@@ -18,7 +18,7 @@ from vf.runner import PropertyViolation, Sub
 PROPERTY = "C06"
 LEVEL = "exploration"
 RULE = (
-    "Hypothesis draws 2..4 groups (strings or ints), optionally 1..3 control strata, a set of active "
+    "Hypothesis draws 2..4 groups (a fifth of the cases: up to 12 or 25 groups out of 30 labels; strings or ints), optionally 1..3 control strata, a set of active "
     "(stratum, group, label) cells (each kept with probability 0.6, or all cells in 'dense' cases) and "
     "n in [2,20] rows over them (every group and stratum occurs), a categorical feature column, one of the "
     "five parity moments, a bound (default / difference_bound >= 0 / ratio_bound in (0,1] with slack >= 0), "
@@ -92,6 +92,8 @@ def check_parity(case):
 
     # (f) r = 1, hard predictions: '+' entries = MetricFrame by_group - overall of the matching rate
     tags = ["narrow_label_dtype"] if case.get("y_dtype") not in (None, "int", "float") else []
+    if len(set(map(str, case["sf"]))) >= 8:
+        tags.append("groups>=8")
     hard = all(v in (0.0, 1.0) for v in h)
     if r == 1.0 and hard and _mf_applicable(case):
         _mf_crosscheck(case, events, entries, assigned, vals)
@@ -239,6 +241,8 @@ def check_error_rate(case):
     need(abs(got - exp) <= TOL * max(1.0, abs(exp)),
          f"ErrorRate(costs={case['costs']}).gamma = {got!r}; (fn*sum_[y=1](1-h) + fp*sum_[y=0]h)/n = {exp!r}")
     tags = ["narrow_label_dtype"] if case.get("y_dtype") not in (None, "int", "float") else []
+    if len(set(map(str, case["sf"]))) >= 8:
+        tags.append("groups>=8")
     if len(set(case["y"])) == 2 and _nonconstant(case["h"]):
         tags.append("nt")
     c = case["costs"]
